@@ -73,7 +73,7 @@ end
 /-- `Pattern::potential_kinds` (`rootKind` = `root_kind` of contextual patterns) -/
 def patternPotentialKinds (p : PNode) (rootKind : Option Nat) : Option (List Nat) :=
   match p with
-  | .terminal _ _ kind => some [kind]
+  | .terminal _ _ kind => if kind == ERROR_KIND then none else some [kind]
   | .metaVar _ => rootKind.map fun k => [k]
   | .internal kind _ => if kind == ERROR_KIND then none else some [kind]
 
